@@ -100,6 +100,20 @@ def gen(chk):
     for body, ms in ml:
         cases.append(('"before".p\nr := ' + body + '\n"after".p\nr.p\n', None, "multiline"))
         cases.append(('"before".p\nr := ' + body + '\n"after".p\n', "".join("%s\n" % m for m in ["before"] + ms + ["after"]), "multiline"))
+    # more than 48 elements (beyond any "small" fast path): elements are visited in order, once, on one goroutine
+    big = "os := (1:61).A@{|i| {n: i, S: m{t(.n); .n.S}, '==: m{|o| t(.n); true}, '<=>: m{|o| t(.n); .n <=> o.n}}}\n"
+    seq60 = "".join("%d\n" % i for i in range(1, 61))
+    cases.append((big + 'r := os.join(",")\nr.len.p\n', seq60 + "170\n", "big-array"))
+    cases.append((big + "r := os@S\nr.len.p\n", seq60 + "60\n", "big-array"))
+    cases.append((big + "r := (os == os@{|o| o})\nr.p\n", seq60 + "true\n", "big-array"))
+    cases.append((big + "r := os@{|o| o.n}.sum\nr.p\n", "1830\n", "big-array"))
+    cases.append(("r := (1:101).A@{|i| t(i)}.len\nr.p\n", "".join("%d\n" % i for i in range(1, 101)) + "100\n", "big-array"))
+    # layout volume must not matter either: a keyword after 1100 spaces / tabs, the next one on the following line
+    for padc in (" ", "\t"):
+        pad = padc * 1100
+        cases.append(('"before".p\nr := fk(t(1),\n' + pad + 'k1: t(2),\n  k2: t(3))\n"after".p\n', "before\n1\n2\n3\nafter\n", "multiline"))
+        cases.append(('"before".p\nr := {|| \\_}(z: t(1),\n' + pad + 'y: t(2),\nx: t(3),\n' + pad + 'w: t(4))\n"after".p\n', "before\n1\n2\n3\n4\nafter\n", "multiline"))
+        cases.append(('"before".p\nr := {|a: t(1),\n' + pad + 'b: t(2),\n c: t(3)| [a, b, c]}()\n"after".p\n', "before\n1\n2\n3\nafter\n", "multiline"))
     # a lonely chain on a nil receiver still evaluates what is written: chain argument and arguments, once, in order
     for body, ms in [("nil&.foo(t(1), t(2))", [1, 2]), ("nil&.foo(t(1), k: t(2))", [1, 2]), ("t(1).{|x| nil}&.foo(t(2))", [1, 2]),
                      ("[nil, nil]&@foo(t(1))", [1]), ("[nil]&@([t(1)])foo(t(2))", [1, 2]), ("nil&.foo(*[t(1)], **{k: t(2)})", [1, 2])]:
